@@ -160,36 +160,58 @@ fn scenario(name: &str, n: usize) -> Vec<u8> {
     o
 }
 
-/// A battery of sequential geo algorithms on one caller's input (used by `two_callers`).
-fn battery(k: usize, n: usize) -> Vec<u8> {
-    use geo::algorithm::{ConcaveHull, InteriorPoint, KNearestConcaveHull, Relate, Simplify};
+/// A battery of sequential geo algorithms on one caller's input (used by `two_callers`).  Every
+/// operation is a separate step so that the callers can be lined up, step by step, with a barrier:
+/// both are then inside the SAME library function at the same time, on different inputs of equal
+/// size and extent.
+fn battery_steps(k: usize, n: usize, mut between: impl FnMut()) -> Vec<u8> {
+    use geo::algorithm::{ConcaveHull, InteriorPoint, KNearestConcaveHull, Relate, Simplify, SimplifyIdx, SimplifyVw};
     let mut o = Vec::new();
-    // same sizes and the same bounding box for every caller, different coordinates inside
     let f = |i: usize| ((i * (7 + 2 * k) + 3 * k) % 11) as f64 * 0.5;
     let mut ring: Vec<Coord<f64>> = vec![Coord { x: 0.0, y: 0.0 }, Coord { x: 10.0, y: 0.0 }];
     ring.extend((0..n).map(|i| Coord { x: 10.0 - i as f64 * (10.0 / n as f64), y: 5.0 + f(i) }));
     ring.push(Coord { x: 0.0, y: 10.5 });
     ring.push(Coord { x: 0.0, y: 0.0 });
+    let line = LineString::new(ring[1..ring.len() - 1].to_vec());
     let poly = Polygon::new(LineString::new(ring.clone()), vec![]);
     let other = sq(2.0 + k as f64 * 0.25, 1.0, 4.0);
     let pts = MultiPoint::new(ring.iter().map(|c| Point(*c)).collect());
-    wpoly(&mut o, &poly.convex_hull());
-    wpoly(&mut o, &pts.convex_hull());
-    wpoly(&mut o, &poly.simplify(0.75));
-    wpoly(&mut o, &pts.concave_hull(2.0));
-    wpoly(&mut o, &pts.k_nearest_concave_hull(3));
-    if let Some(p) = poly.interior_point() {
+    const REPEAT: usize = 3;
+    macro_rules! step {
+        ($body:expr) => {{
+            between();
+            for _ in 0..REPEAT {
+                $body;
+            }
+        }};
+    }
+    step!(wpoly(&mut o, &poly.convex_hull()));
+    step!(wpoly(&mut o, &pts.convex_hull()));
+    step!(wpoly(&mut o, &poly.simplify(0.75)));
+    step!({
+        let l = line.simplify(0.75);
+        l.0.iter().for_each(|c| {
+            w(&mut o, c.x);
+            w(&mut o, c.y)
+        });
+        line.simplify_idx(0.75).iter().for_each(|x| o.extend_from_slice(&(*x as u64).to_le_bytes()));
+    });
+    step!(wpoly(&mut o, &poly.simplify_vw(0.75)));
+    step!(wpoly(&mut o, &pts.concave_hull(2.0)));
+    step!(wpoly(&mut o, &pts.k_nearest_concave_hull(3)));
+    step!(if let Some(p) = poly.interior_point() {
         w(&mut o, p.x());
         w(&mut o, p.y());
-    }
-    if let Some(c) = poly.centroid() {
+    });
+    step!(if let Some(c) = poly.centroid() {
         w(&mut o, c.x());
         w(&mut o, c.y());
-    }
-    w(&mut o, poly.unsigned_area());
-    o.extend_from_slice(format!("{:?}", poly.relate(&other)).as_bytes());
-    wmp(&mut o, &poly.intersection(&other));
-    wmp(&mut o, &geo::algorithm::bool_ops::unary_union([&poly, &other]));
+    });
+    step!(w(&mut o, poly.unsigned_area()));
+    step!(o.extend_from_slice(format!("{:?}", poly.relate(&other)).as_bytes()));
+    step!(w(&mut o, geo::algorithm::line_measures::Distance::distance(&geo::algorithm::line_measures::Euclidean, &poly, &sq(20.0 + k as f64, 1.0, 2.0))));
+    step!(wmp(&mut o, &poly.intersection(&other)));
+    step!(wmp(&mut o, &geo::algorithm::bool_ops::unary_union([&poly, &other])));
     o
 }
 
@@ -200,9 +222,19 @@ fn main() {
         // size and extent; every result must equal the one computed alone, before.
         let callers: usize = av.get(2).and_then(|s| s.parse().ok()).unwrap_or(2);
         let n: usize = av.get(3).and_then(|s| s.parse().ok()).unwrap_or(6);
-        let alone: Vec<Vec<u8>> = (0..callers).map(|k| battery(k, n)).collect();
+        let alone: Vec<Vec<u8>> = (0..callers).map(|k| battery_steps(k, n, || {})).collect();
+        let barrier = std::sync::Barrier::new(callers);
+        let barrier = &barrier;
         let together: Vec<Vec<u8>> = std::thread::scope(|s| {
-            let hs: Vec<_> = (0..callers).map(|k| s.spawn(move || battery(k, n))).collect();
+            let hs: Vec<_> = (0..callers)
+                .map(|k| {
+                    s.spawn(move || {
+                        battery_steps(k, n, || {
+                            barrier.wait();
+                        })
+                    })
+                })
+                .collect();
             hs.into_iter().map(|h| h.join().unwrap()).collect()
         });
         if together != alone {
